@@ -975,7 +975,7 @@ func expand(it item, ks []kind, thorough bool, f func(sc *scenario)) {
 		outcomes = []outcome{{"NO", false}, {"BAD", false}}
 	}
 	if len(it.Cmds) >= 3 {
-		outcomes = []outcome{{"OK", false}, {"NO", true}, {"BAD", false}}
+		outcomes = []outcome{{"OK", false}, {"NO", true}}
 	}
 	p := it.Cmds
 	var orec func(prefix []outcome)
